@@ -362,11 +362,16 @@ func (w *World) removeEntities(filter Filter) int {
 		}
 
 		var j uint32
-		for j = 0; j < ln; j++ {
-			entity := arch.GetEntity(j)
-			if listen {
+		if listen {
+			// Notify for all entities of the archetype before removing any of them,
+			// so that listeners see a consistent world.
+			for j = 0; j < ln; j++ {
+				entity := arch.GetEntity(j)
 				w.listener.Notify(w, EntityEvent{Entity: entity, Removed: arch.Mask, RemovedIDs: oldIds, OldRelation: oldRel, OldTarget: arch.RelationTarget, EventTypes: bits})
 			}
+		}
+		for j = 0; j < ln; j++ {
+			entity := arch.GetEntity(j)
 			index := &w.entities[entity.id]
 			index.arch = nil
 
